@@ -194,15 +194,17 @@ def incompressible_cases(seed):
             k = len(out)
             out.append({"id": "incompressible-%d" % k, "blocksize": bs, "restart": 16, "unaligned": False, "skipindex": True, "hash": "sha1", "exact": True,
                         "min": 1, "max": 1, "refs": [],
-                        "logs": [{"n": "r", "i": 1, "del": False, "old": "02" * 20, "new": "01" * 20, "user": "", "email": "", "time": 1, "tz": 0, "msg": "", "msghex": msg.hex()}],
+                        "logs": [{"n": "r", "i": 1, "del": False, "old": bytes(rng.randrange(256) for _ in range(20)).hex(),
+                                  "new": bytes(rng.randrange(256) for _ in range(20)).hex(), "user": "", "email": "", "time": 1, "tz": 0, "msg": "", "msghex": msg.hex()}],
                         "seekrefs": [""], "seeklogs": [{"n": "r", "i": 1}, {"n": "", "i": 0}], "oids": [], "universe": [], "layout": True})
     # ... and the same inside an INDEXED log section (more than three log blocks): the blocks are then reached through
     # the index, by a different call path than a scan
     for bs in (256, 512):
         logs = []
-        for j, fill in enumerate(range(bs - 104, bs - 66, 1)):
+        for j, fill in enumerate(range(bs - 104, bs - 75, 1)):   # (longer ones do not fit a block: the writer refuses them)
             msg = bytes(rng.randrange(256) for _ in range(fill))
-            logs.append({"n": "refs/l%02d" % j, "i": 1, "del": False, "old": "02" * 20, "new": "01" * 20, "user": "", "email": "", "time": 1, "tz": 0,
+            logs.append({"n": "refs/l%02d" % j, "i": 1, "del": False, "old": bytes(rng.randrange(256) for _ in range(20)).hex(),
+                         "new": bytes(rng.randrange(256) for _ in range(20)).hex(), "user": "", "email": "", "time": 1, "tz": 0,
                          "msg": "", "msghex": msg.hex()})
         k = len(out)
         out.append({"id": "incompressible-%d" % k, "blocksize": bs, "restart": 16, "unaligned": False, "skipindex": True, "hash": "sha1", "exact": True,
